@@ -34,7 +34,7 @@ def check(pid, tier, args):
         for c in r.printed:
             o.write(json.dumps(c) + "\n")
     # workers: one process per shard (TotalAlloc is process-wide), address space capped
-    events, deaths = [], []
+    events, deaths, hangs = [], [], []
     procs = {}
     for sh in range(WORKERS):
         procs[sh] = (run_worker(drive, cases, os.path.join(sc, "h%d-0.ndjson" % sh), sh, tier, 0), 0, 0)
@@ -52,7 +52,13 @@ def check(pid, tier, args):
             text = open(path).read() if os.path.exists(path) else ""
             finished = re.search(r"^#END \d+", text, re.M) is not None
             del procs[sh]
-            if not finished:
+            hung = re.findall(r"^#HUNG (\d+)", text, re.M)
+            if not finished and hung:
+                hangs.append(int(hung[-1]))
+                if len(hangs) <= 6:
+                    procs[sh] = (run_worker(drive, cases, os.path.join(sc, "h%d-%d.ndjson" % (sh, gen + 1)), sh, tier,
+                                            int(hung[-1])), gen + 1, int(hung[-1]))
+            elif not finished:
                 begins = re.findall(r"^#BEGIN (\d+) (.*)$", text, re.M)
                 if not begins:
                     raise vlib.Infra("hostile worker %d died before its first case: %s" % (sh, p.stderr.read()[-800:]))
@@ -63,7 +69,7 @@ def check(pid, tier, args):
                     break
                 procs[sh] = (run_worker(drive, cases, os.path.join(sc, "h%d-%d.ndjson" % (sh, gen + 1)), sh, tier, job),
                              gen + 1, job)
-        if len(deaths) > 6:
+        if len(deaths) > 6 or len(hangs) > 6:
             for sh in procs:
                 procs[sh][0].kill()
             break
